@@ -106,3 +106,5 @@ func errName(err error) string {
 	}
 	return err.Error()
 }
+
+func yield() { runtimeGosched() }
